@@ -134,7 +134,7 @@ Qed.
 
 (* the letter that owns a given rule *)
 Ltac owner_tac := unfold letter_ids, add_plugin;
-  repeat match goal with |- context [if ?x =? ?k then _ else _] => destruct (N.eqb_spec x k); [subst x; intros H; vm_compute in H; first [reflexivity | (left; reflexivity) | (right; reflexivity) | exfalso; intuition discriminate]|] end;
+  repeat match goal with |- context [if ?x =? ?k then _ else _] => destruct (N.eqb_spec x k); [subst x; intros H; vm_compute in H; first [reflexivity | (left; reflexivity) | (right; reflexivity) | (right; left; reflexivity) | (right; right; reflexivity) | exfalso; intuition discriminate]|] end;
   intros H; vm_compute in H; exfalso; intuition discriminate.
 
 Lemma owner_htmlblock c : In R_HTMLBLOCK (letter_ids c) -> c = 88.
@@ -143,7 +143,7 @@ Lemma owner_htmlinline c : In I_HTMLINLINE (letter_ids c) -> c = 120.
 Proof. owner_tac. Qed.
 Lemma owner_sourcepos c : In C_SOURCEPOS (letter_ids c) -> c = 83.
 Proof. owner_tac. Qed.
-Lemma owner_emph c : In I_EMPH_STAR (letter_ids c) \/ In I_EMPH_UNDER (letter_ids c) \/ In I_STRIKE (letter_ids c) -> c = 109 \/ c = 115.
+Lemma owner_emph c : In I_EMPH_STAR (letter_ids c) \/ In I_EMPH_UNDER (letter_ids c) \/ In I_STRIKE (letter_ids c) -> c = 109 \/ c = 115 \/ c = 122.
 Proof. intros [H|[H|H]]; revert H; owner_tac. Qed.
 
 Lemma in_expand c cs : In c (expand cs) -> In c cs \/ (In 67 cs /\ In c (bs "nebmliatcfqhurHLp")) \/ (In 87 cs /\ In c (bs "xX")).
@@ -208,15 +208,15 @@ Proof.
 Qed.
 
 (* configuration strings without the emphasis / strikethrough letters m, s and the composite C *)
-Definition emph_free_cfg (cfg : str) : bool := forallb (fun c => negb ((c =? 109) || (c =? 115) || (c =? 67))) cfg.
+Definition emph_free_cfg (cfg : str) : bool := forallb (fun c => negb ((c =? 109) || (c =? 115) || (c =? 67) || (c =? 122))) cfg.
 
 Theorem build_md_no_emph_rule cfg nest v : emph_free_cfg cfg = true -> v = I_EMPH_STAR \/ v = I_EMPH_UNDER \/ v = I_STRIKE ->
   ~ In v (vals (md_inline (build_md cfg nest))).
 Proof.
   intros Hc Hv H.
-  apply (build_md_lacks cfg nest v (fun c => (c =? 109) || (c =? 115) || (c =? 67))).
+  apply (build_md_lacks cfg nest v (fun c => (c =? 109) || (c =? 115) || (c =? 67) || (c =? 122))).
   - destruct Hv as [->|[->| ->]]; vm_compute; intuition discriminate.
-  - intros c Hl. assert (O : c = 109 \/ c = 115) by (apply owner_emph; destruct Hv as [->|[->| ->]]; auto). destruct O as [->| ->]; reflexivity.
+  - intros c Hl. assert (O : c = 109 \/ c = 115 \/ c = 122) by (apply owner_emph; destruct Hv as [->|[->| ->]]; auto). destruct O as [->|[->| ->]]; reflexivity.
   - apply expand_lacks; [exact Hc| |intros _; vm_compute; reflexivity]. intros H'. exfalso. revert H'. eapply forallb_absent; [exact Hc|reflexivity].
   - apply in_all_vals. right. left. exact H.
 Qed.
